@@ -61,6 +61,14 @@ func fullFieldsOdd(r *rand.Rand, g genRecord, declareDigest bool, odd bool) [][2
 	return f
 }
 
+// oddVersion: mostly 1.1 / 1.0, sometimes a version text the library does not know, in every shape
+func oddVersion(r *rand.Rand) string {
+	if r.Intn(15) == 0 {
+		return pick(r, []string{"1", "1.", ".1", "2.0", "1.1.1", "", "x", "1.x", "0.18", "10", "1 .1", "-1.1", "1..1"})
+	}
+	return pick(r, []string{"1.1", "1.1", "1.0"})
+}
+
 func mutateStream(r *rand.Rand, b []byte) []byte {
 	switch r.Intn(12) {
 	case 0: // flip one byte
@@ -107,7 +115,7 @@ func genPlainStream(r *rand.Rand) []byte {
 				}
 			}
 		}
-		version := pick(r, []string{"1.1", "1.1", "1.0", "0.9", "1.1 ", ""})
+		version := pick(r, []string{"1.1", "1.1", "1.0", "0.9", "1.1 ", "", oddVersion(r), oddVersion(r)})
 		le := "\r\n"
 		if r.Intn(10) == 0 {
 			le = "\n"
@@ -143,7 +151,7 @@ func genUnm(r *rand.Rand, n int, tier string, out *bufio.Writer) {
 				nitems++
 			}
 			g := genRecordSpec(r)
-			payload := serializeRecord("1.1", fullFields(r, g, r.Intn(3) == 0), g.body, "\r\n")
+			payload := serializeRecord(oddVersion(r), fullFields(r, g, r.Intn(3) == 0), g.body, "\r\n")
 			if r.Intn(10) == 0 {
 				payload = mutateStream(r, payload)
 			}
@@ -238,6 +246,26 @@ func readStream(o ropts, data []byte, bad bool, chunk int) string {
 		}
 		last = off
 	}
+	// C04: a reader opened at offset 0 on a seekable stream that was used before starts at the first byte
+	if !bad && len(obs) > 0 && strings.Contains(obs[0], ":rec;") {
+		shared := bytes.NewReader(data)
+		first := func() string {
+			r, err := gowarc.NewWarcFileReaderFromStream(shared, 0, o.options(dir, nil)...)
+			if err != nil {
+				return "openerr"
+			}
+			defer r.Close()
+			rec, off, v, err := r.Next()
+			if err != nil || rec == nil {
+				return fmt.Sprintf("off=%d:none:%s", off, classify(err))
+			}
+			defer rec.Close()
+			return fmt.Sprintf("off=%d:rec;%s", off, showRecord(rec, v))
+		}
+		if a, b := first(), first(); a != b {
+			obs = append(obs, "REUSED-STREAM-MISMATCH")
+		}
+	}
 	// the findings handed out with an earlier record are the caller's: later calls must not change them
 	for i, kv := range kept {
 		if kv.v != nil && kinds(kv.v) != kv.k {
@@ -325,6 +353,12 @@ func runUnm(toks []string) (string, string) {
 		}
 		if i := strings.Index(obs, "|REOPEN-MISMATCH"); i >= 0 {
 			return strings.Replace(obs, obs[i:i+strings.Index(obs[i+1:]+"|", "|")+1], "", 1), "FAIL:reopen-mismatch:a fresh reader opened at a reported offset does not return the record reported there: " + obs[i+1:i+40]
+		}
+		if i := strings.Index(obs, "|REUSED-STREAM-MISMATCH"); i >= 0 {
+			return strings.Replace(obs, "|REUSED-STREAM-MISMATCH", "", 1), "FAIL:reopen-mismatch:a reader opened at offset 0 on a seekable stream that was read before does not start at the first byte"
+		}
+		if i := strings.Index(obs, "|VALIDATION-MUTATED"); i >= 0 {
+			return obs[:i], "FAIL:delivery-dependent:the findings returned with an earlier record changed when a later record was read: " + obs[i+1:]
 		}
 		if i := strings.Index(obs, "|DELIVERY:"); i >= 0 {
 			return obs[:i], "FAIL:delivery-dependent:reading the same bytes from a source that delivers them differently gives different results; from a plain reader: " + obs[i+10:]
